@@ -680,6 +680,9 @@ func (pc *PartitionContext) removeNode(nodeID string) ([]*objects.Allocation, []
 	// scheduling and removal of a node race on a full cluster we could cause all headroom to disappear for
 	// the time the allocations are not removed.
 	released, confirmed := pc.removeNodeAllocations(node)
+	// the foreign allocations go with the node: forget them, otherwise a later report of the same allocation
+	// is handled as an update of an allocation that no node has booked
+	pc.removeNodeForeignAllocations(node)
 
 	// update the resource linked to this node, all allocations are removed, queue usage should have decreased
 	// The delta passed in must be negative: the delta is always added
@@ -1618,6 +1621,15 @@ func (pc *PartitionContext) updatePhAllocationCount(released []*objects.Allocati
 	}
 	if phReleases > 0 {
 		pc.decPhAllocationCount(phReleases)
+	}
+}
+
+// removeNodeForeignAllocations drops the foreign allocations tracked for a node that is removed from the partition.
+func (pc *PartitionContext) removeNodeForeignAllocations(node *objects.Node) {
+	pc.Lock()
+	defer pc.Unlock()
+	for _, alloc := range node.GetForeignAllocations() {
+		delete(pc.foreignAllocs, alloc.GetAllocationKey())
 	}
 }
 
